@@ -932,6 +932,10 @@ func (g *Gen) stmt(d int, last bool) N {
 			// simple for { } with explicit break
 			brk := ExprStmt(If(Bin(">=", Id(cnt), Int(lim)), []any{N{"k": "break"}}, nil))
 			loop = N{"k": "for", "init": []any{}, "hascond": false, "cond": Nil(), "post": []any{}, "body": append([]any{brk, inc}, body...)}
+		} else if g.chance(3) {
+			// three-part header whose INIT clause is an expression (its value must be discarded)
+			init := []N{Id(cnt), Call(Id("len"), List(Id(cnt))), Call(Id("print"), Int(310+g.R.Intn(9)))}[g.R.Intn(3)]
+			loop = N{"k": "for", "init": []any{ExprStmt(init)}, "hascond": true, "cond": Bin("<", Id(cnt), Int(lim)), "post": []any{inc}, "body": body}
 		} else {
 			loop = N{"k": "for", "init": []any{}, "hascond": true, "cond": Bin("<", Id(cnt), Int(lim)), "post": []any{}, "body": append([]any{inc}, body...)}
 		}
